@@ -1890,3 +1890,106 @@ func (c *Ctx) commentForm(rule string, wt, wn *FuncInfo) (n int) {
 	}
 	return
 }
+
+// ---------------------------------------------------------------------------------------------
+// LEX-LOSSLESS (C01): a scanner function that consumes a run of runes in a loop returns, as the
+// token's literal, the text of the buffer into which it wrote every rune it kept (the parser
+// rebuilds comments and names from these literals). Returning anything else (a constant, a
+// trimmed or re-built string) loses input text.
+func (c *Ctx) lexLossless(rule string, pkgs ...string) (n int) {
+	clause := "node, root and branch comments are preserved"
+	for _, fi := range c.AllFuncs(pkgs...) {
+		if fi.Decl.Body == nil || fi.Decl.Recv == nil {
+			continue
+		}
+		sig := fi.Obj.Type().(*types.Signature)
+		if sig.Results().Len() != 2 {
+			continue
+		}
+		if b, ok := sig.Results().At(1).Type().Underlying().(*types.Basic); !ok || b.Info()&types.IsString == 0 {
+			continue
+		}
+		info := fi.Pkg.TypesInfo
+		isRead := func(call *ast.CallExpr) bool {
+			g := calleeOf(info, call)
+			return g != nil && g.Name() == "read" && g.Pkg() == fi.Obj.Pkg()
+		}
+		// a loop that reads
+		var loop *ast.ForStmt
+		ast.Inspect(fi.Decl.Body, func(m ast.Node) bool {
+			if fs, ok := m.(*ast.ForStmt); ok && loop == nil {
+				for _, call := range callsIn(fs.Body, false) {
+					if isRead(call) {
+						loop = fs
+					}
+				}
+			}
+			return true
+		})
+		if loop == nil {
+			continue
+		}
+		n++
+		key := funcName(fi.Obj) + "/literal"
+		// buffers written with the rune read in the loop
+		bufs := map[types.Object]bool{}
+		for _, call := range callsIn(loop.Body, false) {
+			g := calleeOf(info, call)
+			if g == nil || !(g.Name() == "WriteRune" || g.Name() == "WriteString" || g.Name() == "WriteByte") {
+				continue
+			}
+			if sel, ok := unparen(call.Fun).(*ast.SelectorExpr); ok {
+				if o := identObj(info, sel.X); o != nil {
+					bufs[o] = true
+				}
+			}
+		}
+		bad := ""
+		nret := 0
+		ast.Inspect(fi.Decl.Body, func(m ast.Node) bool {
+			if _, isLit := m.(*ast.FuncLit); isLit {
+				return false
+			}
+			rs, ok := m.(*ast.ReturnStmt)
+			if !ok || len(rs.Results) != 2 || rs.Pos() < loop.End() {
+				return true
+			}
+			nret++
+			good := false
+			res := unparen(rs.Results[1])
+			if v := identObj(info, res); v != nil {
+				// a local (or named result) defined once as B.String()
+				k, def := 0, ast.Expr(nil)
+				forAssignsTo(info, fi.Decl.Body, v, func(rhs ast.Expr, multi, incdec bool) {
+					k++
+					def = rhs
+				})
+				if k == 1 && def != nil {
+					res = unparen(def)
+				}
+			}
+			if call, ok := res.(*ast.CallExpr); ok {
+				if g := calleeOf(info, call); g != nil && g.Name() == "String" {
+					if sel, ok := unparen(call.Fun).(*ast.SelectorExpr); ok && bufs[identObj(info, sel.X)] {
+						good = true
+					}
+				}
+			}
+			if !good && bad == "" {
+				bad = c.src(rs.Results[1])
+			}
+			return true
+		})
+		switch {
+		case len(bufs) == 0:
+			c.Violation(rule, key, loop.Pos(), "the loop consumes runes and writes none of them into a buffer: the text of the token is lost (the parser rebuilds comments from token literals)").Clause = clause
+		case bad != "":
+			c.Violation(rule, key, loop.Pos(), "after consuming a run of runes the function returns "+bad+" as the token's literal instead of the buffer it filled: the consumed text is lost (the parser rebuilds comments from token literals)").Clause = clause
+		case nret == 0:
+			c.Undecided(rule, key, loop.Pos(), "no return after the reading loop")
+		default:
+			c.OK(rule, key, loop.Pos(), "the literal returned is the buffer filled by the loop")
+		}
+	}
+	return
+}
